@@ -80,6 +80,7 @@ struct Prov {
   std::vector<std::pair<int, Bytes>> addrs;    // (family, address) of A/AAAA records in the answer
   std::vector<uint32_t> addr_ttls;
   std::vector<std::pair<std::string, uint32_t>> cnames;   // (owner lower, ttl)
+  std::vector<std::string> ptr_names;
   bool cookie_valid = true; bool carried_server_cookie = false; int outcome = -1; size_t txs_at_injection = 0;
   int on_current_conn = -1;   // forged packets: was the targeted query assigned to the receiving socket when the bytes were read (-1 not evaluated)
 };
@@ -208,7 +209,7 @@ struct World {
           }
         } else if (tx.qtype == ref::T_PTR) {
           unsigned n = 1 + (unsigned)((h >> 16) % 3);
-          for (unsigned i = 0; i < n; i++) { ref::RR rr; rr.owner = owner; rr.type = ref::T_PTR; rr.klass = 1; rr.ttl = ttl_of(20 + i); rr.decoded = true; ref::Field f; f.kind = ref::F_NAME; f.name = ref::mkname({("h" + std::to_string(pv.serial) + "n" + std::to_string(i)).c_str(), "ptr", "test"}); rr.fields.push_back(f); m.sec[0].push_back(rr); pv.ttls.push_back(rr.ttl); }
+          for (unsigned i = 0; i < n; i++) { ref::RR rr; rr.owner = owner; rr.type = ref::T_PTR; rr.klass = 1; rr.ttl = ttl_of(20 + i); rr.decoded = true; ref::Field f; f.kind = ref::F_NAME; f.name = ref::mkname({("h" + std::to_string(pv.serial) + "n" + std::to_string(i)).c_str(), "ptr", "test"}); rr.fields.push_back(f); m.sec[0].push_back(rr); pv.ttls.push_back(rr.ttl); pv.ptr_names.push_back(ref::escape_name(f.name)); }
         } else {
           ref::RR rr; rr.owner = owner; rr.type = ref::T_TXT; rr.klass = 1; rr.ttl = ttl_of(20); rr.decoded = true; ref::Field f; f.kind = ref::F_ABIN; f.abin.push_back("serial=" + std::to_string(pv.serial)); rr.fields.push_back(f); m.sec[0].push_back(rr); pv.ttls.push_back(rr.ttl);
         }
